@@ -66,7 +66,12 @@ class Event:
                 LOG.exception(f"Failed in predicate for {self.name}")
                 continue
             if one_shot:
-                self.unsubscribe(handler, *inner_args, **kwargs)
+                try:
+                    self.unsubscribe(handler, *inner_args, **kwargs)
+                except ValueError:
+                    # An earlier handler already unsubscribed it during this notification,
+                    # that shouldn't prevent notification of other handlers.
+                    pass
             if asyncio.iscoroutinefunction(handler):
                 # Note that unsubscription may be delayed due to asyncio scheduling :)
 
